@@ -154,6 +154,76 @@ def run_exact(ctx, res, dag, lines, post):
     res.case(('exact', str(dag)), len(dag['comps']) >= 3, {'dag': dag, 'x': xs, 'outputs': ref})
 
 
+def run_mutations(ctx, res, dag):
+    """a system that has already been USED is edited through the public API (swap_component with a same-named component that
+    is wired differently, remove_component + insert_components) and must then predict exactly what a freshly built system of
+    the final components predicts (no dependence on how / in which order the components were inserted)"""
+    import copy
+    rng = ctx.rng
+    n = len(dag['comps'])
+    perm = tuple(rng.sample(range(n), n))
+    norms = {}
+    system = build_exact_system(dag, perm, norms)
+    xs = {v: float(rng.choice([-3, -2, -1, 1, 2, 3, 0.5, -1.5])) for v in dag['exo']}
+    xin = {k: np.array([v, v + 1.0]) for k, v in xs.items()}
+    try:
+        system.predict(dict(xin), use_model='best', normalized_inputs=False)     # the system has been used before the edits
+        system.graph()
+    except Exception as e:  # noqa: BLE001
+        res.failures.append({'kind': 'predict-raised', 'input': {'dag': dag, 'listing': list(perm)}, 'observed': repr(e)[:300]})
+        return
+    dag2 = copy.deepcopy(dag)
+    ops = []
+    for _ in range(rng.randint(1, 3)):
+        k = rng.randrange(n)
+        c = dag2['comps'][k]
+        if rng.random() < 0.65 and k >= 1:
+            # rewire: same name, same outputs, same polynomial shapes, other inputs (exogenous <-> outputs of earlier components)
+            avail = list(dag['exo']) + [o for cc_ in dag2['comps'][:k] for o in cc_['outs']]
+            cand = [v for v in avail if v not in c['ins']]
+            if not cand:
+                continue
+            j = rng.randrange(len(c['ins']))
+            c['ins'] = c['ins'][:j] + [rng.choice(cand)] + c['ins'][j + 1:]
+            vars_ = {str(v): v for cc_ in system.components for v in list(cc_.inputs) + list(cc_.outputs)}
+
+            def var(nm):
+                return vars_.get(nm) or Variable(nm, domain=(-4.0, 4.0) if nm.startswith('x') else (-1e6, 1e6))
+            newc = Component(make_model(c), inputs=[var(v) for v in c['ins']], outputs=[var(v) for v in c['outs']],
+                             name=c['name'], vectorized=True)
+            system.swap_component(c['name'], newc)
+            ops.append(['swap', c['name'], list(c['ins'])])
+        else:
+            old = system[c['name']]
+            system.remove_component(c['name'])
+            system.insert_components(old)
+            ops.append(['remove+insert', c['name']])
+    info = {'dag': dag, 'listing': list(perm), 'edits': ops, 'x': xs}
+    need = [str(v) for v in system.inputs()]
+    if any(v not in xin for v in need):
+        return
+    fresh = build_exact_system(dag2, tuple(range(n)), norms)
+    x2 = {k: xin[k] for k in need}
+    try:
+        exp = fresh.predict(dict(x2), use_model='best', normalized_inputs=False)
+    except Exception:  # noqa: BLE001
+        return
+    try:
+        got = system.predict(dict(x2), use_model='best', normalized_inputs=False)
+    except Exception as e:  # noqa: BLE001
+        res.failures.append({'kind': 'edited-system-raises-where-a-fresh-system-of-the-same-components-predicts', 'input': info,
+                             'observed': repr(e)[:300]})
+        return
+    for o in exp:
+        if o not in got or not np.array_equal(np.asarray(got[o]), np.asarray(exp[o]), equal_nan=True):
+            res.failures.append({'kind': 'edited-system-differs-from-fresh-system-of-the-same-components',
+                                 'input': {**info, 'output': o},
+                                 'observed': None if o not in got else np.asarray(got[o]).tolist(),
+                                 'expected': np.asarray(exp[o]).tolist()})
+    res.hit('edited-system-' + '+'.join(sorted({o[0] for o in ops})) if ops else 'edited-system-none')
+    res.case(('edits', str(dag), str(ops)), bool(ops), {'dag': dag, 'edits': ops})
+
+
 def topo_order(system):
     produced = {str(o): c.name for c in system.components for o in c.outputs}
     done, order = set(), []
@@ -223,8 +293,9 @@ def run_surrogate(ctx, res, seed):
     system.fit(max_iter=rng.randint(5, 9), num_refine=30, max_tol=-np.inf, update_bounds=False)
     np.random.seed(seed % 2 ** 31 + 1)
     xs = system.sample_inputs(6)
+    # `()` is the (only) explicit fidelity of a component without model-fidelity indices: a per-component override like any other
     configs = [({}, {}), ({'c1': 'best'}, {}), ({}, {'c0': 'train'}), ({'c0': 'best', 'c2': 'best'}, {'c1': 'train'}),
-               ({'c3': 'best'}, {})]
+               ({'c3': 'best'}, {}), ({'c2': ()}, {}), ({'c0': (), 'c3': ()}, {'c2': 'train'})]
     for overrides, isets in configs:
         um = {c.name: overrides.get(c.name) for c in system.components} if overrides else None
         iset = {c.name: isets.get(c.name, 'test') for c in system.components}
@@ -296,7 +367,7 @@ def run(ctx: core.Ctx, only=None) -> core.Result:
                 'polynomial models, all listing permutations (<= 3 components) or 5 random ones, target subsets, raw vs '
                 'normalised inputs: bitwise against the exact Lean model; (B) trained diamond systems with surrogate and '
                 'surrogate-less components in random listing order vs manual chaining, overrides and partial targets. '
-                'non-trivial = >= 3 components.')
+                'every DAG system is also EDITED after use (swap_component with a same-named, differently wired component; remove + insert) and compared with a fresh system of the final components; non-trivial = >= 3 components.')
     lines, post = [], []
     if only is not None:
         items = [o.get('input', o) for o in only]
@@ -311,6 +382,8 @@ def run(ctx: core.Ctx, only=None) -> core.Result:
                 run_nan_sibling(ctx, res, it['nan_sibling'])
             elif 'dag' in it:
                 run_exact(ctx, res, it['dag'], lines, post)
+                if it.get('edits', True):
+                    run_mutations(ctx, res, it['dag'])
             else:
                 run_surrogate(ctx, res, it['seed'])
     out = core.try_driver(lines, res, 'Amisc.predictFF')
